@@ -142,6 +142,28 @@ def handleLIN (st : St) (n : Nat) (toks : List String) (reqs : Array LReq) : Res
         if !ok then
           let f := fail st n "C12" s!"the outcomes of one log's requests are not explained by that log's requests alone (case {cname}): requests naming another log changed them"
           st := f.st; outs := outs ++ f.out
+  -- C01 under concurrency: the checkpoints cosigned for one log in this execution (and the one held before) are
+  -- pairwise compatible: equal sizes have equal roots, and with the ground-truth trees known, both lie on one branch
+  let cpOf (b : Bytes) : Option (Nat × Bytes) := ((B.splitLast b).bind (fun p => Cp.unmarshal p.1)).map (fun c => (c.size, c.hash))
+  for lg in (reqs.toList.map (·.log)).eraseDups do
+    let held := match lget init lg with | .val b => (cpOf b).toList | _ => []
+    let acc := reqs.toList.filterMap (fun r => if r.kind == "U" && r.err == "none" && r.log == lg then
+      (match r.ret with | .val b => cpOf b | _ => none) else none)
+    let all := held ++ acc
+    let truth := s.truth.getD (String.fromUTF8! (ByteArray.mk lg.toArray)) []
+    for i in [0:all.length] do
+      for j in [i+1:all.length] do
+        let a := all[i]!
+        let b := all[j]!
+        if a.1 == b.1 && a.2 != b.2 then
+          let f := fail st n "C01" s!"two cosigned checkpoints of size {a.1} with different roots (case {cname})"
+          st := f.st; outs := outs ++ f.out
+        else if a.1 != b.1 && a.1 > 0 && b.1 > 0 then
+          let ba := truth.filter (fun t => t.2.1 == a.1 && t.2.2 == a.2)
+          let bb := truth.filter (fun t => t.2.1 == b.1 && t.2.2 == b.2)
+          if !ba.isEmpty && !bb.isEmpty && !(ba.any (fun x => bb.any (fun y => x.1 == y.1))) then
+            let f := fail st n "C01" s!"cosigned both sides of a split view under concurrency (case {cname}): sizes {a.1} and {b.1} lie on different branches"
+            st := f.st; outs := outs ++ f.out
   -- no reader sees a log's size go down is implied by linearizability + C01; accepted updates are never lost:
   -- the final state must be the returned bytes of some accepted update of that log, or the initial one
   for p in final do
